@@ -2,7 +2,9 @@
 package recovery
 
 import (
+	stderrors "errors"
 	"fmt"
+	"io/fs"
 	"math"
 	"os"
 	"strings"
@@ -120,7 +122,14 @@ func (dr *DatabaseRecovery) LoadDatabaseWithFallback(primaryPath, personalPath s
 func (dr *DatabaseRecovery) loadWithRetry(primaryPath, personalPath string) (*database.Database, error) {
 	var lastErr error
 
-	for attempt := 1; attempt <= dr.retryConfig.MaxAttempts; attempt++ {
+	// At least one attempt is always made: with MaxAttempts <= 0 the loop would not run at
+	// all and the caller would get neither a database nor an error.
+	maxAttempts := dr.retryConfig.MaxAttempts
+	if maxAttempts < 1 {
+		maxAttempts = 1
+	}
+
+	for attempt := 1; attempt <= maxAttempts; attempt++ {
 		db, err := database.LoadDatabaseWithPersonal(primaryPath, personalPath)
 		if err == nil {
 			return db, nil
@@ -134,7 +143,7 @@ func (dr *DatabaseRecovery) loadWithRetry(primaryPath, personalPath string) (*da
 		}
 
 		// Don't sleep on the last attempt
-		if attempt < dr.retryConfig.MaxAttempts {
+		if attempt < maxAttempts {
 			delay := dr.calculateDelay(attempt)
 			time.Sleep(delay)
 		}
@@ -145,8 +154,9 @@ func (dr *DatabaseRecovery) loadWithRetry(primaryPath, personalPath string) (*da
 
 // shouldRetry determines if an error is worth retrying
 func (dr *DatabaseRecovery) shouldRetry(err error) bool {
-	// Don't retry for file not found or permission errors
-	if os.IsNotExist(err) || os.IsPermission(err) {
+	// Don't retry for file not found or permission errors. errors.Is looks through the
+	// application errors the loader wraps the cause in; os.IsNotExist does not.
+	if stderrors.Is(err, fs.ErrNotExist) || stderrors.Is(err, fs.ErrPermission) {
 		return false
 	}
 
